@@ -10,12 +10,17 @@ What is generated (everything the C19 theorems quantify over):
   * `definedRule`                - body of `DEFINED ( IDENT )`
   * `rangeLength`                - the `length = ...` expression of `int_const_expr RANGE int_const_expr`
   * `eraseAllFlags`, `eraseUnsecureAllFlags`, `eraseAllAddress` - dict literals of the erase rules
-  * `stringLiteralRegex`, `charLiteralRegex` - the two quoted-literal regexes of the lexer (greedy or not)
+  * `stringLiteralNonGreedy`, `charLiteralNonGreedy` - do the two quoted-literal regexes stop at the first closing quote (probed)
 
-The rule bodies are translated by a small dedicated translator (`RuleTr`); values are Python ints (Lean `Int`,
-booleans as 0/1 - Python's `True == 1`), operator/letter tokens are strings.  Whatever it cannot translate becomes an
-opaque stand-in returning `.error .other` for every input, so that the theorems about that rule FAIL instead of
-silently passing, and the reason is recorded in the meta file.
+Reading is by MEANING, not by spelling:
+  * constants (precedence table, reserved words, token regexes, erase operands) are evaluated with `consteval` - a literal, a named
+    module/class constant, `0x01` or `1`, `(1 << 32) - 1` or `0xFFFFFFFF` give the same generated value; tables that are only looked up
+    are emitted sorted;
+  * rule actions are run by a partial evaluator (`PE`) once per concrete operator with symbolic operands: if-chains, early returns, `match`,
+    dispatch through a dict of `operator.*` functions or lambdas, renamed locals all give the same residual expression, which `RuleTr`
+    turns into a Lean term; the emitted function is a canonical if-chain in a fixed order.
+Values are Python ints (Lean `Int`, booleans as 0/1 - Python's `True == 1`).  A case that cannot be read becomes `.error .other`
+(never a default), so that the theorems about it FAIL instead of silently passing; the reason is recorded in the meta file.
 """
 from __future__ import annotations
 
@@ -684,21 +689,181 @@ def residual_to_lean(value, names):
     return ".error .other"
 
 
-def gen_rule(out, meta, lean_name, params, names, getfn, comment):
-    """Emit `def lean_name params : PyRes Int := <translation>` or an opaque stand-in."""
-    sig = " ".join(f"({n} : {t})" for n, t in params)
+def _param(fn):
+    """name of the production argument of a rule method (`token` in the source today)"""
+    args = [x.arg for x in fn.args.args]
+    if len(args) < 2:
+        raise Untr("rule method without a production argument")
+    return args[1]
+
+
+def _bind(fn, pairs):
+    """{'[1]': v, '.expr0': w} -> bindings keyed by the unparsed source expression over the method's own argument name"""
+    tok = _param(fn)
+    return {f"{tok}{k}": v for k, v in pairs.items()}
+
+
+def _sym(name):
+    return Res(ast.Name(id=name, ctx=ast.Load()))
+
+
+def _cases(rules, rule_name, pattern):
+    """productions of `rule_name` of the form given by `pattern` (a list with one 'TOK' placeholder), whichever method carries them:
+       -> [(token name, production, FunctionDef)]"""
+    out = []
+    for nm, prods, fn in rules:
+        if nm != rule_name:
+            continue
+        for prod in prods:
+            parts = prod.split()
+            if len(parts) == len(pattern) and all(q == "TOK" or q == w for q, w in zip(pattern, parts)):
+                tokname = parts[pattern.index("TOK")]
+                if tokname.isupper() and tokname not in ("LPAREN", "RPAREN"):
+                    out.append((tokname, prod, fn))
+    return out
+
+
+def _ordered(cases, canon):
+    seen = {}
+    for c in cases:
+        seen.setdefault(c[0], c)
+    names = [n for n in canon if n in seen] + sorted(n for n in seen if n not in canon)
+    return [seen[n] for n in names]
+
+
+def _run_case(ptree, pcls, fn, pairs, names):
+    """one concrete case of a rule action -> (lean term : PyRes Int, residual source or reason, ok)"""
     try:
-        prods, fn = getfn()
-        body = RuleTr(names).block(body_wo_doc(fn))
-        out.append(f"/-- {comment}; translated from `{PARSER}` line {fn.lineno}, productions {prods} -/")
-        out.append(f"def {lean_name} {sig} : PyRes Int :=\n  {body}\n")
-        meta["rules"][lean_name] = {"mode": "translated", "line": fn.lineno, "productions": prods}
+        pe = PE(ptree, pcls, _bind(fn, pairs))
+        val = pe.run(body_wo_doc(fn))
+        term = residual_to_lean(val, names)
+        src = ast.unparse(val.node) if isinstance(val, Res) else repr(val)
+        return term, src, True
     except Untr as exc:
-        out.append(f"-- untranslatable {lean_name}: {exc}")
-        out.append(f"/-- opaque stand-in (every theorem about this rule fails) -/")
-        us = " ".join(f"(_{n} : {t})" for n, t in params)
-        out.append(f"def {lean_name} {us} : PyRes Int := .error .other\n")
-        meta["rules"][lean_name] = {"mode": "untranslatable", "reason": str(exc)}
+        return ".error .other", f"unreadable: {exc}", False
+    except RecursionError:
+        return ".error .other", "unreadable: recursion", False
+
+
+def _chain(var, branches, indent="  "):
+    """canonical if-chain over distinct texts"""
+    lines = []
+    for i, (text, term) in enumerate(branches):
+        kw = "if" if i == 0 else "else if"
+        lines.append(f"{indent}{kw} ({var} == {lstr(text)}) then {term}")
+    lines.append(f"{indent}else .error .other" if branches else f"{indent}.error .other")
+    return "\n".join(lines)
+
+
+_BIN_CANON = ["PLUS", "MINUS", "TIMES", "DIVIDE", "MOD", "LSHIFT", "RSHIFT", "AND", "OR", "XOR"]
+_CMP_CANON = ["LT", "LE", "GT", "GE", "EQ", "NE", "LAND", "LOR"]
+_SIZE_LETTERS = ["w", "h", "b"]
+
+
+def gen_actions(out, meta, ptree, pcls, rules, text_of):
+    """The rule actions, one concrete operator at a time (see the partial evaluator above).  The emitted Lean function is a
+    canonical if-chain in a fixed order, whatever the control structure of the Python method is; a case the evaluator cannot read
+    is `.error .other` (the theorems about that operator then fail) and the reason is recorded in the meta file."""
+    # ---- expr: binary operators + int-size suffix
+    names = {"expr0": ("expr0", "Int"), "expr1": ("expr1", "Int"), "tok0": ("tok0", "Int")}
+    info, branches = {}, []
+    for tokname, prod, fn in _ordered(_cases(rules, "expr", ["expr", "TOK", "expr"]), _BIN_CANON):
+        text = text_of.get(tokname)
+        if text is None:
+            info[prod] = f"unreadable: token {tokname} has no fixed text"
+            continue
+        term, src, _ok = _run_case(ptree, pcls, fn, {"[1]": text, f".{tokname}": text, "[0]": _sym("expr0"), "[2]": _sym("expr1"),
+                                                     ".expr0": _sym("expr0"), ".expr1": _sym("expr1")}, names)
+        branches.append((text, term))
+        info[prod] = src
+    size_cases = _cases(rules, "expr", ["expr", "TOK", "INT_SIZE"])
+    if size_cases:
+        tokname, prod, fn = size_cases[0]
+        text = text_of.get(tokname)
+        if text is None:
+            info[prod] = f"unreadable: token {tokname} has no fixed text"
+        else:
+            sub = []
+            for letter in _SIZE_LETTERS:
+                term, src, _ok = _run_case(ptree, pcls, fn, {"[1]": text, f".{tokname}": text, "[0]": _sym("tok0"), ".expr": _sym("tok0"),
+                                                             "[2]": letter, ".INT_SIZE": letter}, names)
+                sub.append((letter, term))
+                info[f"{prod} [{letter}]"] = src
+            branches.append((text, "\n" + _chain("intSize", sub, "    ")))
+    out.append("/-- `expr` rule: binary operators (`operator` = text of the operator token) and the int-size suffix; each case is the action of the\n"
+               f"    rule method of `{PARSER}` evaluated for that operator -/")
+    out.append("def exprRule (operator : String) (expr0 : Int) (expr1 : Int) (tok0 : Int) (intSize : String) : PyRes Int :=\n" + _chain("operator", branches) + "\n")
+    meta["rules"]["exprRule"] = {"mode": "evaluated", "cases": info}
+
+    # ---- bool_expr: comparisons, && ||
+    names = {"bool_expr0": ("bool_expr0", "Int"), "bool_expr1": ("bool_expr1", "Int")}
+    info, branches = {}, []
+    for tokname, prod, fn in _ordered(_cases(rules, "bool_expr", ["bool_expr", "TOK", "bool_expr"]), _CMP_CANON):
+        text = text_of.get(tokname)
+        if text is None:
+            info[prod] = f"unreadable: token {tokname} has no fixed text"
+            continue
+        term, src, _ok = _run_case(ptree, pcls, fn, {"[1]": text, f".{tokname}": text, "[0]": _sym("bool_expr0"), "[2]": _sym("bool_expr1"),
+                                                     ".bool_expr0": _sym("bool_expr0"), ".bool_expr1": _sym("bool_expr1")}, names)
+        branches.append((text, term))
+        info[prod] = src
+    out.append("/-- `bool_expr` rule: comparisons and logical operators (Python bools as 0/1) -/")
+    out.append("def boolRule (operator : String) (bool_expr0 : Int) (bool_expr1 : Int) : PyRes Int :=\n" + _chain("operator", branches) + "\n")
+    meta["rules"]["boolRule"] = {"mode": "evaluated", "cases": info}
+
+    # ---- unary_expr
+    names = {"expr": ("expr", "Int")}
+    info, branches = {}, []
+    for tokname, prod, fn in _ordered(_cases(rules, "unary_expr", ["TOK", "expr"]), ["MINUS", "PLUS"]):
+        text = text_of.get(tokname)
+        if text is None:
+            info[prod] = f"unreadable: token {tokname} has no fixed text"
+            continue
+        term, src, _ok = _run_case(ptree, pcls, fn, {"[0]": text, f".{tokname}": text, "[1]": _sym("expr"), ".expr": _sym("expr")}, names)
+        branches.append((text, term))
+        info[prod] = src
+    out.append("/-- `unary_expr` rule (`sign` = text of the sign token) -/")
+    out.append("def unaryRule (sign : String) (expr : Int) : PyRes Int :=\n" + _chain("sign", branches) + "\n")
+    meta["rules"]["unaryRule"] = {"mode": "evaluated", "cases": info}
+
+    # ---- LNOT bool_expr
+    names = {"bool_expr": ("bool_expr", "Int")}
+    cases = [c for c in _cases(rules, "bool_expr", ["TOK", "bool_expr"]) if c[0] == "LNOT"]
+    if cases:
+        tokname, prod, fn = cases[0]
+        text = text_of.get(tokname, "!")
+        term, src, _ok = _run_case(ptree, pcls, fn, {"[0]": text, f".{tokname}": text, "[1]": _sym("bool_expr"), ".bool_expr": _sym("bool_expr")}, names)
+        par = "bool_expr" if "bool_expr" in term else "_bool_expr"
+    else:
+        term, src, par = ".error .other", "unreadable: no production `LNOT bool_expr`", "_bool_expr"
+    out.append("/-- `LNOT bool_expr` rule -/")
+    out.append(f"def lnotRule ({par} : Int) : PyRes Int :=\n  {term}\n")
+    meta["rules"]["lnotRule"] = {"mode": "evaluated", "cases": {"LNOT bool_expr": src}}
+
+    # ---- int_const_expr RANGE int_const_expr : {"address": first operand, "length": ...}
+    names = {"int_const_expr0": ("int_const_expr0", "Int"), "int_const_expr1": ("int_const_expr1", "Int")}
+    term, src = ".error .other", "unreadable: no production `int_const_expr RANGE int_const_expr`"
+    for tokname, prod, fn in _cases(rules, "address_or_range", ["int_const_expr", "TOK", "int_const_expr"]):
+        text = text_of.get(tokname, "..")
+        try:
+            pe = PE(ptree, pcls, _bind(fn, {"[1]": text, f".{tokname}": text, "[0]": _sym("int_const_expr0"), "[2]": _sym("int_const_expr1"),
+                                            ".int_const_expr0": _sym("int_const_expr0"), ".int_const_expr1": _sym("int_const_expr1")}))
+            val = pe.run(body_wo_doc(fn))
+            if not isinstance(val, dict) or sorted(map(str, val)) != ["address", "length"]:
+                raise Untr(f"a range does not deliver exactly \"address\" and \"length\": {sorted(map(str, val)) if isinstance(val, dict) else val!r}")
+            addr = val["address"]
+            if not (isinstance(addr, Res) and isinstance(addr.node, ast.Name) and addr.node.id == "int_const_expr0"):
+                raise Untr("\"address\" of a range is not the first operand")
+            term = residual_to_lean(val["length"], names)
+            src = ast.unparse(val["length"].node) if isinstance(val["length"], Res) else repr(val["length"])
+        except Untr as exc:
+            term, src = ".error .other", f"unreadable: {exc}"
+        break
+    a0 = "int_const_expr0" if "int_const_expr0" in term else "_int_const_expr0"
+    a1 = "int_const_expr1" if "int_const_expr1" in term else "_int_const_expr1"
+    out.append("/-- `int_const_expr RANGE int_const_expr`: the value stored under \"length\" (\"address\" is the first operand) -/")
+    out.append(f"def rangeLength ({a0} : Int) ({a1} : Int) : PyRes Int :=\n  {term}\n")
+    meta["rules"]["rangeLength"] = {"mode": "evaluated", "cases": {"length": src}}
 
 
 def unescape_simple_regex(rx: str):
@@ -726,65 +891,95 @@ def gen_BdGrammar() -> None:
         rules = rule_methods(pcls)
     except (OSError, SyntaxError, Untr) as exc:
         meta["error"] = str(exc)
-        rules, pcls = [], None
+        rules, pcls, ptree = [], None, None
     try:
         ltree = parse(LEXER)
         lcls = class_def(ltree, "BDLexer")
     except (OSError, SyntaxError, Untr) as exc:
         meta["lexer_error"] = str(exc)
-        lcls = None
+        lcls, ltree = None, None
 
-    # ---- precedence tuple
+    penv = lenv = None
+    try:
+        penv = ModuleEnv(ptree) if pcls is not None else None
+        lenv = ModuleEnv(ltree) if lcls is not None else None
+    except Exception as exc:  # noqa: BLE001
+        meta["consteval_error"] = str(exc)
+
+    # ---- precedence tuple (by value: names of constants, concatenated tuples … all give the same table)
     prec = []
-    if pcls is not None:
-        for n in pcls.body:
-            if isinstance(n, ast.Assign) and len(n.targets) == 1 and isinstance(n.targets[0], ast.Name) and n.targets[0].id == "precedence":
-                try:
-                    val = ast.literal_eval(n.value)
-                    prec = [(str(row[0]), [str(t) for t in row[1:]]) for row in val]
-                except (ValueError, IndexError, TypeError):
-                    prec = []
+    if penv is not None:
+        try:
+            val = penv.cls("BDParser").value("precedence")
+            prec = [(str(row[0]), [str(t) for t in row[1:]]) for row in val]
+        except (NotConst, ValueError, IndexError, TypeError) as exc:
+            meta["precedence_error"] = str(exc)
+            prec = []
     out.append("/-- `BDParser.precedence`: (associativity, tokens), lowest precedence first. -/")
     out.append("def precedence : List (String × List String) :=\n  [" + ",\n   ".join(
         f"({lstr(a)}, [{', '.join(lstr(t) for t in ts)}])" for a, ts in prec) + "]\n")
     meta["precedence"] = prec
 
-    # ---- lexer: literal text of simple tokens, the two quoted-literal regexes
+    # ---- lexer: literal text of simple tokens (definition order = matching priority), the two quoted-literal regexes
     toktext = []
-    string_rx, char_rx = "", ""
-    if lcls is not None:
+    string_rx, int_rx = None, None
+    if lcls is not None and lenv is not None:
         for n in lcls.body:
-            if isinstance(n, ast.Assign) and len(n.targets) == 1 and isinstance(n.targets[0], ast.Name) \
-                    and isinstance(n.value, ast.Constant) and isinstance(n.value.value, str) and n.targets[0].id.isupper():
-                name, rx = n.targets[0].id, n.value.value
-                if name == "STRING_LITERAL":
-                    string_rx = rx
-                lit = unescape_simple_regex(rx)
-                if lit is not None:
-                    toktext.append((name, lit))
+            tgt = None
+            if isinstance(n, ast.Assign) and len(n.targets) == 1 and isinstance(n.targets[0], ast.Name):
+                tgt, vnode = n.targets[0].id, n.value
+            elif isinstance(n, ast.AnnAssign) and isinstance(n.target, ast.Name) and n.value is not None:
+                tgt, vnode = n.target.id, n.value
+            if tgt is not None and tgt.isupper():
+                try:
+                    rx = lenv.eval(vnode, cls="BDLexer")
+                except NotConst:
+                    rx = None
+                if isinstance(rx, str):
+                    if tgt == "STRING_LITERAL":
+                        string_rx = rx
+                    lit = unescape_simple_regex(rx)
+                    if lit is not None:
+                        toktext.append((tgt, lit))
             if isinstance(n, ast.FunctionDef) and n.name == "INT_LITERAL":
                 for d in n.decorator_list:
-                    if isinstance(d, ast.Call) and d.args and isinstance(d.args[0], ast.Constant):
-                        m = re.search(r"\|('.*)$", str(d.args[0].value))
-                        char_rx = m.group(1) if m else ""
+                    if isinstance(d, ast.Call) and d.args:
+                        try:
+                            v = lenv.eval(d.args[0], cls="BDLexer")
+                            int_rx = v if isinstance(v, str) else None
+                        except NotConst:
+                            int_rx = None
+            if isinstance(n, ast.FunctionDef) and n.name == "STRING_LITERAL":
+                for d in n.decorator_list:
+                    if isinstance(d, ast.Call) and d.args:
+                        try:
+                            v = lenv.eval(d.args[0], cls="BDLexer")
+                            string_rx = v if isinstance(v, str) else None
+                        except NotConst:
+                            string_rx = None
     reserved = []
-    if lcls is not None:
-        for n in lcls.body:
-            if isinstance(n, ast.Assign) and len(n.targets) == 1 and isinstance(n.targets[0], ast.Name) and n.targets[0].id == "reserved":
-                try:
-                    reserved = [(str(k), str(v)) for k, v in ast.literal_eval(n.value).items()]
-                except (ValueError, AttributeError):
-                    reserved = []
-    out.append("/-- `BDLexer.reserved`: keyword text -> token name -/")
+    if lenv is not None:
+        try:
+            reserved = sorted((str(k), str(v)) for k, v in lenv.cls("BDLexer").value("reserved").items())
+        except (NotConst, ValueError, AttributeError, TypeError) as exc:
+            meta["reserved_error"] = str(exc)
+            reserved = []
+    out.append("/-- `BDLexer.reserved`: keyword text -> token name (a dict that is only looked up: sorted by keyword) -/")
     out.append("def reserved : List (String × String) :=\n  [" + ", ".join(f"({lstr(a)}, {lstr(b)})" for a, b in reserved) + "]\n")
     meta["reserved"] = reserved
     out.append("/-- lexer tokens defined by a regex matching exactly one text, in definition order (= matching priority) -/")
     out.append("def tokenText : List (String × String) :=\n  [" + ", ".join(f"({lstr(a)}, {lstr(b)})" for a, b in toktext) + "]\n")
-    out.append(f"/-- regex of STRING_LITERAL -/\ndef stringLiteralRegex : String := {lstr(string_rx)}")
-    out.append(f"/-- the quoted alternative of the INT_LITERAL regex -/\ndef charLiteralRegex : String := {lstr(char_rx)}\n")
+    # greedy or not is decided by what the regex matches, not by how it is spelt
+    s_ng = _first_quote_only(string_rx, '"')
+    c_ng = _first_quote_only(int_rx, "'")
+    out.append("/-- the STRING_LITERAL regex stops at the FIRST closing quote (probed: `\"a\" \"b\"` matches `\"a\"`) -/")
+    out.append(f"def stringLiteralNonGreedy : Bool := {'true' if s_ng else 'false'}")
+    out.append("/-- the quoted alternative of the INT_LITERAL regex stops at the first closing quote -/")
+    out.append(f"def charLiteralNonGreedy : Bool := {'true' if c_ng else 'false'}\n")
     meta["tokenText"] = toktext
     meta["stringLiteralRegex"] = string_rx
-    meta["charLiteralRegex"] = char_rx
+    meta["intLiteralRegex"] = int_rx
+    text_of = dict(toktext)
 
     # ---- productions of the expression rules
     prods = {}
@@ -796,68 +991,34 @@ def gen_BdGrammar() -> None:
         f"({lstr(k)}, [{', '.join(lstr(p) for p in v)}])" for k, v in prods.items()) + "]\n")
     meta["productions"] = prods
 
-    # ---- rule bodies
-    gen_rule(out, meta, "exprRule",
-             [("operator", "String"), ("expr0", "Int"), ("expr1", "Int"), ("tok0", "Int"), ("intSize", "String")],
-             {"token[1]": ("operator", "Str"), "token.expr0": ("expr0", "Int"), "token.expr1": ("expr1", "Int"),
-              "token[0]": ("tok0", "Int"), "token.INT_SIZE": ("intSize", "Str")},
-             lambda: find_rule(rules, "expr", "expr PLUS expr"),
-             "`expr` rule: binary operators (`operator` = text of token[1]) and the int-size suffix")
-    gen_rule(out, meta, "boolRule",
-             [("operator", "String"), ("bool_expr0", "Int"), ("bool_expr1", "Int")],
-             {"token[1]": ("operator", "Str"), "token.bool_expr0": ("bool_expr0", "Int"), "token.bool_expr1": ("bool_expr1", "Int")},
-             lambda: find_rule(rules, "bool_expr", "bool_expr LT bool_expr"),
-             "`bool_expr` rule: comparisons and logical operators (Python bools as 0/1)")
-    gen_rule(out, meta, "unaryRule", [("sign", "String"), ("expr", "Int")],
-             {"token[0]": ("sign", "Str"), "token.expr": ("expr", "Int")},
-             lambda: find_rule(rules, "unary_expr", "MINUS expr"),
-             "`unary_expr` rule (`sign` = text of token[0])")
-    gen_rule(out, meta, "lnotRule", [("bool_expr", "Int")],
-             {"token.bool_expr": ("bool_expr", "Int")},
-             lambda: find_rule(rules, "bool_expr", "LNOT bool_expr"),
-             "`LNOT bool_expr` rule")
-    gen_rule(out, meta, "rangeLength", [("int_const_expr0", "Int"), ("int_const_expr1", "Int")],
-             {"token.int_const_expr0": ("int_const_expr0", "Int"), "token.int_const_expr1": ("int_const_expr1", "Int")},
-             lambda: _range_len_fn(rules),
-             "`int_const_expr RANGE int_const_expr`: the value stored under \"length\"")
+    # ---- rule actions
+    gen_actions(out, meta, ptree if pcls is not None else None, pcls, rules, text_of)
 
     # ---- defined(IDENT)
     out.append(_gen_defined(rules, lcls, meta))
     # ---- identifier lookup
     out.append(_gen_lookup(rules, meta))
     # ---- erase constants
-    out.append(_gen_erase(rules, meta))
+    out.append(_gen_erase(rules, meta, ptree if pcls is not None else None, pcls, dict((v, k) for k, v in reserved)))
 
     out.append("end SpsdkVerif.Generated.BdGrammar")
     emit("BdGrammar", "\n".join(out) + "\n", meta)
 
 
-def _range_len_fn(rules):
-    """Synthesize `return <length expr>` from the address_or_range RANGE rule (dict value under "length")."""
-    prods, fn = find_rule(rules, "address_or_range", "int_const_expr RANGE int_const_expr")
-    body = body_wo_doc(fn)
-    ret = body[-1] if body else None
-    if not (isinstance(ret, ast.Return) and isinstance(ret.value, ast.Dict)):
-        raise Untr("address_or_range does not end in `return {…}`")
-    keys = [k.value if isinstance(k, ast.Constant) else None for k in ret.value.keys]
-    if sorted(k or "" for k in keys) != ["address", "length"]:
-        raise Untr(f"address_or_range returns keys {keys}")
-    # the "address" entry must be the first operand; encode that in the function as well:  we return length only, and
-    # check the address entry syntactically here
-    new_body = list(body[:-1])
-    addr_v = ret.value.values[keys.index("address")]
-    tr = RuleTr({"token.int_const_expr0": ("A", "Int"), "token.int_const_expr1": ("B", "Int")})
-    # resolve local aliases (address_start = token.int_const_expr0)
-    for s in new_body:
-        if isinstance(s, ast.Assign) and len(s.targets) == 1 and isinstance(s.targets[0], ast.Name):
-            t, ty, partial = tr.expr(s.value)
-            tr.names[s.targets[0].id] = (t, ty)
-    t, _ty, _p = tr.expr(addr_v)
-    if t != "A":
-        raise Untr(f"\"address\" of a range is not the first operand: {ast.unparse(addr_v)}")
-    new_body.append(ast.Return(value=ret.value.values[keys.index("length")]))
-    f2 = ast.FunctionDef(name=fn.name, args=fn.args, body=new_body, decorator_list=[], lineno=fn.lineno)
-    return prods, f2
+def _first_quote_only(rx, q):
+    """does the regex, applied where a quoted literal starts, stop at the first closing quote?  (probes, not spelling)"""
+    if not isinstance(rx, str):
+        return False
+    try:
+        cre = re.compile(rx)
+    except re.error:
+        return False
+    probes = [(f"{q}a{q} {q}b{q}", f"{q}a{q}"), (f"{q}{q} + {q}xy{q};", f"{q}{q}"), (f"{q}a b{q}, {q}c{q}, {q}d{q}", f"{q}a b{q}")]
+    for text, want in probes:
+        m = cre.match(text)
+        if m is None or m.group(0) != want:
+            return False
+    return True
 
 
 def _has_eq(lcls, name="Variable"):
@@ -943,25 +1104,45 @@ def _gen_lookup(rules, meta):
         return hdr + f"-- untranslatable: {exc}\ndef lookupFirstWins : Bool := true\ndef lookupRecognised : Bool := false\n"
 
 
-def _gen_erase(rules, meta):
+def _find_erase_dict(v, depth=0):
+    if isinstance(v, dict) and depth < 4:
+        if "address" in v and "flags" in v:
+            return v
+        for x in v.values():
+            r = _find_erase_dict(x, depth + 1)
+            if r is not None:
+                return r
+    return None
+
+
+def _gen_erase(rules, meta, ptree, pcls, kw_text):
+    """operands of `erase … all` / `erase unsecure all`, read BY VALUE: the rule method is evaluated, so named constants, `0x01` or `1`
+    and a dict built in several steps all give the same numbers"""
     vals = {"eraseAllAddress": None, "eraseAllFlags": None, "eraseUnsecureAllAddress": None, "eraseUnsecureAllFlags": None}
+    why = {}
     for nm, prods, fn in rules:
         if nm != "erase_stmt":
             continue
         which = "eraseAll" if "ERASE mem_opt ALL" in prods else "eraseUnsecureAll" if "ERASE UNSECURE ALL" in prods else None
         if which is None:
             continue
-        for node in ast.walk(fn):
-            if isinstance(node, ast.Dict):
-                keys = [k.value if isinstance(k, ast.Constant) else None for k in node.keys]
-                if "address" in keys and "flags" in keys:
-                    try:
-                        vals[which + "Address"] = int(ast.literal_eval(node.values[keys.index("address")]))
-                        vals[which + "Flags"] = int(ast.literal_eval(node.values[keys.index("flags")]))
-                    except (ValueError, TypeError):
-                        pass
-    meta["erase"] = vals
-    lines = ["/-- dict literals of `erase … all` / `erase unsecure all` (-1 = not found in the source) -/"]
+        try:
+            pairs = {f".{name}": kw_text[name] for name in ("ERASE", "ALL", "UNSECURE") if name in kw_text}
+            if "ERASE" in kw_text:
+                pairs["[0]"] = kw_text["ERASE"]
+            pe = PE(ptree, pcls, _bind(fn, pairs))
+            d = _find_erase_dict(pe.run(body_wo_doc(fn)))
+            if d is None:
+                raise Untr("the rule does not deliver a dict with \"address\" and \"flags\"")
+            for key, suffix in (("address", "Address"), ("flags", "Flags")):
+                v = d[key]
+                if isinstance(v, bool) or not isinstance(v, int):
+                    raise Untr(f"\"{key}\" is not a constant integer")
+                vals[which + suffix] = int(v)
+        except Untr as exc:
+            why[which] = str(exc)
+    meta["erase"] = dict(vals, **({"unreadable": why} if why else {}))
+    lines = ["/-- operands of `erase … all` / `erase unsecure all` (-1 = not readable from the source) -/"]
     for k, v in vals.items():
         lines.append(f"def {k} : Int := {v if v is not None else -1}")
     return "\n".join(lines) + "\n"
